@@ -228,6 +228,9 @@ type Raft struct {
 	// and that the log has not been replaced yet.
 	restoring bool
 
+	// Indicates that the node was stopped, its log is closed until its state is restored.
+	stopped bool
+
 	wg sync.WaitGroup
 
 	mu sync.Mutex
@@ -462,10 +465,13 @@ func (r *Raft) start(restore bool) error {
 		return nil
 	}
 
-	if restore {
+	// A node that was stopped has closed its log. Its state has to be restored
+	// even if Start was called instead of Restart.
+	if restore || r.stopped {
 		if err := r.restore(); err != nil {
 			return fmt.Errorf("could not restore state: %w", err)
 		}
+		r.stopped = false
 	}
 
 	if r.configuration == nil {
@@ -522,6 +528,7 @@ func (r *Raft) Stop() {
 	}
 
 	r.state = Shutdown
+	r.stopped = true
 	r.applyCond.Broadcast()
 	r.commitCond.Broadcast()
 	r.readOnlyCond.Broadcast()
